@@ -77,6 +77,21 @@ structure ResizeShape where
   roundUpW : Bool
   roundUpH : Bool
   deriving DecidableEq, Repr
+/-- The two placement loops of (*Vaxis).render, statement by statement (true = the statement is there, in that
+    position): in the loop over ` + "`vx.graphicsLast`" + `: delete-and-continue on refresh, skip when a same placement is in
+    ` + "`vx.graphicsNext`" + `, delete; between the loops: empty the last list on refresh; in the loop over
+    ` + "`vx.graphicsNext`" + `: skip when a same placement is in ` + "`vx.graphicsLast`" + `, move the cursor and write; then
+    ` + "`vx.graphicsLast = vx.graphicsNext`" + `.  ` + "`extra`" + `: statements of that stretch the extractor does not know. -/
+structure RenderShape where
+  delOnRefresh : Bool
+  delKeepSame : Bool
+  delRest : Bool
+  clearOnRefresh : Bool
+  writeSkipSame : Bool
+  writeRest : Bool
+  saveLast : Bool
+  extra : List String
+  deriving DecidableEq, Repr
 /-- One leading ` + "`if … { return }`" + ` of a Draw method: no encoded data yet (` + "`X.buf.Len() == 0`" + `), the encoder goroutine
     still running (` + "`atomicLoad(&X.encoding)`" + `), the size test ` + "`X.w <cw> w <conn> X.h <ch> h`" + ` against
     ` + "`w, h := win.Size()`" + `, or a condition the extractor does not know (the model then treats the method as never
@@ -754,6 +769,9 @@ func gen(c *ex.Ctx) {
 		fmt.Fprintf(&sb, "\n/-- the cell-size arithmetic of KittyImage.Resize / of Sixel.Resize (inside its goroutine). -/\ndef kittyResize : ResizeShape := %s\ndef sixelResize : ResizeShape := %s\n", shape(kl, "k"), shape(sl, "s"))
 	}
 
+	// ---- the placement loops of (*Vaxis).render, structured (interpreted by Model/Placements.lean: renderShaped)
+	fmt.Fprintf(&sb, "\n/-- the placement loops of (*Vaxis).render. -/\ndef renderShape : RenderShape := %s\n", renderShape(c))
+
 	// ---- the gates of KittyImage.Draw / Sixel.Draw, structured (interpreted by Model/ImageDraw.lean)
 	for _, d := range [][3]string{{"KittyImage", "k", "kittyGates"}, {"Sixel", "s", "sixelGates"}} {
 		fmt.Fprintf(&sb, "\n/-- the leading `if … { return }` statements of %s.Draw, in source order. -/\ndef %s : List Gate := [%s]\n",
@@ -899,6 +917,130 @@ func cellPixelAxes(c *ex.Ctx, fd *ast.FuncDecl) (string, string) {
 	return wAx, hAx
 }
 
+// renderShape recognises the statements of render from the label outerLast to `vx.graphicsLast = vx.graphicsNext`.
+// Never fails: anything unexpected goes to `extra` (and the theorem render_shape fails).
+func renderShape(c *ex.Ctx) string {
+	flags := map[string]bool{}
+	var extra []string
+	b := func(k string) string {
+		if flags[k] {
+			return "true"
+		}
+		return "false"
+	}
+	out := func() string {
+		q := make([]string, len(extra))
+		for i, e := range extra {
+			q[i] = ex.LeanStr(e)
+		}
+		return fmt.Sprintf("⟨%s, %s, %s, %s, %s, %s, %s, [%s]⟩", b("delOnRefresh"), b("delKeepSame"), b("delRest"),
+			b("clearOnRefresh"), b("writeSkipSame"), b("writeRest"), b("saveLast"), strings.Join(q, ", "))
+	}
+	vf := c.Parse("vaxis.go")
+	if vf == nil {
+		extra = append(extra, "vaxis.go not parsed")
+		return out()
+	}
+	fd := ex.FindFunc(vf, "Vaxis", "render")
+	if fd == nil || fd.Body == nil {
+		extra = append(extra, "render not found")
+		return out()
+	}
+	loopBody := func(st ast.Stmt, over string) []ast.Stmt {
+		ls, ok := st.(*ast.LabeledStmt)
+		if !ok {
+			return nil
+		}
+		rs, ok := ls.Stmt.(*ast.RangeStmt)
+		if !ok || src(c, rs.X) != over || rs.Key == nil || src(c, rs.Key) != "_" || rs.Value == nil || src(c, rs.Value) != "p1" {
+			return nil
+		}
+		return rs.Body.List
+	}
+	on := false
+	for _, st := range fd.Body.List {
+		ls, isL := st.(*ast.LabeledStmt)
+		if isL && ls.Label.Name == "outerLast" {
+			on = true
+		}
+		if !on {
+			continue
+		}
+		t := src(c, st)
+		switch {
+		case isL && ls.Label.Name == "outerLast":
+			body := loopBody(st, "vx.graphicsLast")
+			if body == nil {
+				extra = append(extra, t)
+				break
+			}
+			// expected, in this order (each optional): refresh arm, same-placement loop, delete
+			want := []struct{ key, text string }{
+				{"delOnRefresh", "if vx.refresh { p1.deleteFn(vx.tw) continue }"},
+				{"delKeepSame", "for _, p2 := range vx.graphicsNext { if samePlacement(p1, p2) { continue outerLast } }"},
+				{"delRest", "p1.deleteFn(vx.tw)"}}
+			k := 0
+			for _, bs := range body {
+				bt := src(c, bs)
+				found := false
+				for ; k < len(want); k++ {
+					if want[k].text == bt {
+						flags[want[k].key] = true
+						found = true
+						k++
+						break
+					}
+				}
+				if !found {
+					extra = append(extra, "outerLast: "+bt)
+				}
+			}
+		case isL && ls.Label.Name == "outerNew":
+			body := loopBody(st, "vx.graphicsNext")
+			if body == nil {
+				extra = append(extra, t)
+				break
+			}
+			want := []struct{ key, text string }{
+				{"writeSkipSame", "for _, p2 := range vx.graphicsLast { if samePlacement(p1, p2) { continue outerNew } }"},
+				{"cup", "_, _ = vx.tw.WriteString(tparm(cup, p1.row+1, p1.col+1))"},
+				{"writeRest", "p1.writeTo(vx.tw)"}}
+			k := 0
+			for _, bs := range body {
+				bt := src(c, bs)
+				found := false
+				for ; k < len(want); k++ {
+					if want[k].text == bt {
+						flags[want[k].key] = true
+						found = true
+						k++
+						break
+					}
+				}
+				if !found {
+					extra = append(extra, "outerNew: "+bt)
+				}
+			}
+			if flags["writeRest"] && !flags["cup"] {
+				extra = append(extra, "outerNew: the cursor is not moved to the placement before it is written")
+			}
+		case t == "if vx.refresh { vx.graphicsLast = []*placement{} }" && !flags["writeRest"] && !flags["writeSkipSame"]:
+			flags["clearOnRefresh"] = true
+		case t == "vx.graphicsLast = vx.graphicsNext":
+			flags["saveLast"] = true
+		default:
+			extra = append(extra, t)
+		}
+		if t == "vx.graphicsLast = vx.graphicsNext" {
+			break
+		}
+	}
+	if !on {
+		extra = append(extra, "label outerLast not found")
+	}
+	return out()
+}
+
 // structuredGates: every top-level `if cond { return }` of a Draw method as a Gate value.  The size test is only
 // recognised when `<w>, <h> := win.Size()` (any two local names) is a top-level statement before it and neither
 // local nor win is assigned in between; anything else is `.unknown "<cond>"`.  Never fails.
@@ -981,26 +1123,7 @@ func genFlow(c *ex.Ctx, f *ast.File) {
 	emit("halfDraw", "HalfBlockImage.Draw", stmtTexts(c, body("HalfBlockImage", "Draw")))
 	emit("fullDrawLoop", "FullBlockImage.Draw: the loop header and the two index statements",
 		keep(strings.Split(strings.Join(stmtTexts(c, body("FullBlockImage", "Draw")), " ; "), " ; "), "for i, cell"))
-	// render: from the label outerLast to `vx.graphicsLast = vx.graphicsNext`
-	var loops []string
-	if vf := c.Parse("vaxis.go"); vf != nil {
-		if fd := ex.FindFunc(vf, "Vaxis", "render"); fd != nil && fd.Body != nil {
-			on := false
-			for _, s := range fd.Body.List {
-				t := src(c, s)
-				if ls, ok := s.(*ast.LabeledStmt); ok && ls.Label.Name == "outerLast" {
-					on = true
-				}
-				if on {
-					loops = append(loops, t)
-				}
-				if t == "vx.graphicsLast = vx.graphicsNext" {
-					break
-				}
-			}
-		}
-	}
-	emit("renderPlacementLoops", "(*Vaxis).render: the statements from `outerLast:` to `vx.graphicsLast = vx.graphicsNext`", loops)
+	// (render's placement loops are structured data in ImageConsts.lean: renderShape)
 	sb.WriteString("end VaxisModel.Gen.ImageFlow\n")
 	c.Write("ImageFlow.lean", sb.String())
 }
